@@ -196,7 +196,92 @@ def _marker_rule(repo, rep):
               "can be identical to", construct="marker-def")
 
 
+def _tuple_elements(v):
+    """the constant strings a compile-time value ranges over, per branch of
+    the alternatives it depends on: -> {((test, bool), ...): [str, ...]} or
+    None if not understood.  Understands tuples of constants, alternatives
+    of them, slices with constant bounds and loop variables over those."""
+    if isinstance(v, A.LoopVar):
+        return _tuple_elements(v.iter)
+    if isinstance(v, (A.Tup, A.Seq)):
+        items = []
+        for x in v.items:
+            if isinstance(x, A.Const) and isinstance(x.value, str):
+                items.append(x.value)
+            else:
+                return None
+        return {(): items}
+    if isinstance(v, A.Alt):
+        a, b = _tuple_elements(v.a), _tuple_elements(v.b)
+        if a is None or b is None:
+            return None
+        out = {}
+        for k, vals in a.items():
+            out[((v.test, True),) + k] = vals
+        for k, vals in b.items():
+            out[((v.test, False),) + k] = vals
+        return out
+    if isinstance(v, A.CallV) and v.name == "getitem" and len(v.args) == 2:
+        base = _tuple_elements(v.args[0])
+        sl = getattr(v.args[1], "node", None)
+        if base is None or not isinstance(sl, ast.Slice):
+            return None
+
+        def bound(e):
+            if e is None:
+                return None
+            try:
+                return int(ast.literal_eval(e))
+            except (ValueError, TypeError):
+                raise AnalysisError("slice bound %s" % src(e))
+        lo, hi, st = bound(sl.lower), bound(sl.upper), bound(sl.step)
+        return {k: vals[lo:hi:st] for k, vals in base.items()}
+    return None
+
+
+def _repeat_globals_rule(repo, rep):
+    """tal:repeat="global x ...": the loop variable is written to the
+    render-wide context as well (per name), and only then"""
+    func = repo.func(COMP + "visit_Repeat")
+    res = L.emission(repo, func.qualname)
+    lin = L.Lin(res.emission)
+    site = func.qualname
+    w = L.where(func)
+    found = []
+    for i, (it, conds, _) in enumerate(lin.rows):
+        if isinstance(it, A.Frag):
+            for node, b in L.frag_find(it, "_C[_K] = econtext[_K]"):
+                cv = L.slot_value(it, b["_C"])
+                found.append((i, it, cv, conds))
+    rep.check(bool(found), "R05.3", site, "the variables of a repeat can be "
+              "copied to another context (C[name] = econtext[name])",
+              construct="repeat-global-write", where=w)
+    for i, it, cv, conds in found:
+        el = _tuple_elements(cv) if cv is not None else None
+        if el is None:
+            raise AnalysisError("visit_Repeat: the contexts the loop "
+                                "variable is copied to are not understood: "
+                                "%s" % A.show(cv, limit=8))
+        glob = sorted({x for k, vals in el.items() for x in vals
+                       if L.cond_holds([(t, b_) for t, b_ in k],
+                                       "node.local", False)})
+        loc = sorted({x for k, vals in el.items() for x in vals
+                      if L.cond_holds([(t, b_) for t, b_ in k],
+                                      "node.local", True)})
+        rep.check(glob == ["rcontext"] and loc in ([], ["econtext"]),
+                  "R05.3", site, "a repeat that is not local copies its "
+                  "variables to rcontext (what a macro call merges back), a "
+                  "local one copies nothing", construct="repeat-global-target",
+                  where=w, detail="not local: %s; local: %s" % (glob, loc))
+        rep.check(any(k == "loop" and "node.names" in str(t)
+                      for k, t in conds), "R05.3", site, "every name of a "
+                  "multi-name repeat is copied",
+                  construct="repeat-global-all-names", where=w,
+                  detail=L.conds_text(conds))
+
+
 def _globals_rule(repo, rep):
+    _repeat_globals_rule(repo, rep)
     func = repo.func(COMP + "visit_Assignment")
     res = L.emission(repo, COMP + "visit_Assignment")
     lin = L.Lin(res.emission)
